@@ -103,6 +103,11 @@ def obligations(tier: str):
     add("tree_grow_f11_concrete_start_crossover", fixture="f11", rep="tree", decider="grow", max_depth=3, ops=["crossover"])
     add("tree_grow_f1p_postponed_annotations_create", fixture="f1p", rep="tree", decider="grow", max_depth=3)
     add("sge_f1p_postponed_annotations_create", fixture="f1p", rep="sge", decider="grow", max_depth=2, gene_length=2)
+    from vf.fixtures import family
+
+    for k in family.interesting(3, 300, every=16 if T else 60):
+        add(f"tree_grow_family{k}_create", fixture="family", index=k, rep="tree", decider="grow", max_depth=3)
+        add(f"ge_family{k}_create", fixture="family", index=k, rep="ge", decider="grow", max_depth=3, gene_length=6)
     # --- tree variation operators
     for fxn in ("f1", "f3") + (("f2", "f4", "f5ctx") if T else ()):
         add(f"tree_grow_{fxn}_mutate", fixture=fxn, rep="tree", decider="grow", max_depth=2, ops=["mutate"])
